@@ -366,6 +366,27 @@ func crashInfo(stderr string) (reason string, inP9 bool, lines []string) {
 		inP9 = strings.Contains(l, "github.com/hugelgupf/p9/")
 		break
 	}
+	if !inP9 {
+		// A panic that starts below p9's request handler (in the backend the
+		// harness provides) and still kills the process went THROUGH
+		// connState.handle, whose job it is to contain it: that is p9's doing.
+		seenGoroutine = false
+		for i := start; i < len(ls); i++ {
+			l := strings.TrimSpace(ls[i])
+			if strings.HasPrefix(l, "goroutine ") {
+				if seenGoroutine {
+					break
+				}
+				seenGoroutine = true
+				continue
+			}
+			if seenGoroutine && strings.Contains(l, "github.com/hugelgupf/p9/p9.(*connState).handle(") {
+				inP9 = true
+				reason += " (not contained by the request handler)"
+				break
+			}
+		}
+	}
 	return reason, inP9, lines
 }
 
